@@ -414,6 +414,157 @@ func checkC07(P *Program, r *Result, tier string) {
 	if ro < 8 {
 		r.fatal("expected at least 8 query methods, found %d", ro)
 	}
+	// ---- EMPTY-SLOT: whoever (re)builds the hash table marks every slot empty (negative) before filling it,
+	// and Get reads a negative slot as "absent" ----
+	A2 := newAnalysis(P)
+	builders := 0
+	for _, fn := range fns {
+		if len(fn.Params) == 0 {
+			continue
+		}
+		// a builder gives the table slots (a store of tab[:0] only empties it)
+		sized := false
+		for _, st := range storesTo(fn, "hashtable") {
+			if sl, isSl := st.Val.(*ssa.Slice); isSl && sl.High != nil {
+				if k, isC := constInt(sl.High); isC && k == 0 {
+					continue
+				}
+			}
+			if isNilConst(st.Val) {
+				continue
+			}
+			sized = true
+		}
+		if !sized {
+			continue
+		}
+		builders++
+		fa := A2.fa(fn)
+		ok, detail := false, "no loop stores a negative marker into every slot of the rebuilt table"
+		for _, b := range fn.Blocks {
+			for _, in := range b.Instrs {
+				st, isSt := in.(*ssa.Store)
+				if !isSt {
+					continue
+				}
+				ia, isIA := st.Addr.(*ssa.IndexAddr)
+				if !isIA || !isLoadOfField(fn, ia.X, "hashtable") {
+					continue
+				}
+				if k, isC := constInt(st.Val); !isC || k >= 0 {
+					continue
+				}
+				if !rangeIndexFromZero(ia.Index) {
+					continue
+				}
+				tab := fa.sliceDesc(ia.X)
+				if tab == nil {
+					continue
+				}
+				goal := ineqGE(fa.expand(ia.Index), tab.Len)
+				if debugContracts {
+					fmt.Println("EMPTY-SLOT goal", fa.A.ineqString(goal), "in", fn.Name())
+				}
+				for _, dc := range blockConds(b, nil, 0) {
+					if !dc.Truth {
+						continue
+					}
+					ef := &edgeFacts{}
+					fa.condFacts(dc.Cond, false, ef)
+					if debugContracts {
+						for _, f := range ef.ineq {
+							fmt.Println("   neg-cond fact", fa.A.ineqString(f))
+						}
+					}
+					if !entails(fa.closeFacts(ef.ineq, nil, nil, goal), goal) {
+						continue
+					}
+					// the loop is on every path to the exits and comes after the table was (re)sized
+					var hb *ssa.BasicBlock
+					for _, t := range testsOf(dc.Cond) {
+						hb = t.If.Block()
+					}
+					if hb == nil {
+						continue
+					}
+					all := true
+					for _, ret := range returnsOf(fn) {
+						if !hb.Dominates(ret.Block()) {
+							all = false
+							detail = "the slots are not reset on every path through " + fn.Name()
+						}
+					}
+					for _, rs := range storesTo(fn, "hashtable") {
+						if !(rs.Block() == hb || rs.Block().Dominates(hb) || hb.Dominates(rs.Block())) {
+							continue
+						}
+						if hb.Dominates(rs.Block()) && rs.Block() != hb {
+							all = false
+							detail = "the table is replaced after its slots were reset"
+						}
+					}
+					// the table read by the loop is the rebuilt one
+					key := "P:" + fn.Params[0].Name() + ".hashtable"
+					if v := fa.mem.versionAt(st, key); v == nil || v.Kind == mEntry {
+						all = false
+						detail = "the reset loop runs on the table as it was on entry"
+					}
+					if all {
+						ok, detail = true, ""
+					}
+				}
+			}
+		}
+		r.add("EMPTY-SLOT", shortName(fn), "loop", "every slot of the rebuilt table is marked empty before the items are entered", P.pos(fn.Pos()), ok, detail)
+	}
+	if builders == 0 {
+		r.fatal("no function rebuilding the hash table found")
+	}
+	for _, fn := range fns {
+		if baseName(fn) != "Get" || fn.Signature.Recv() == nil || len(storesTo(fn, "hashtable")) > 0 {
+			continue
+		}
+		// only the StrMap lookups index the table
+		uses := false
+		okNeg := false
+		for _, b := range fn.Blocks {
+			for _, in := range b.Instrs {
+				ld, isLd := in.(*ssa.UnOp)
+				if !isLd || ld.Op != token.MUL {
+					continue
+				}
+				ia, isIA := ld.X.(*ssa.IndexAddr)
+				if !isIA || !isLoadOfField(fn, ia.X, "hashtable") {
+					continue
+				}
+				uses = true
+				if ld.Referrers() == nil {
+					continue
+				}
+				for _, ref := range *ld.Referrers() {
+					if bo, isBo := ref.(*ssa.BinOp); isBo && bo.X == ssa.Value(ld) && (bo.Op == token.LSS || bo.Op == token.GEQ) {
+						if k, isC := constInt(bo.Y); isC && k == 0 {
+							// every use of the slot value as an index lies on the non-negative side
+							okNeg = true
+							for _, ref2 := range *ld.Referrers() {
+								if cv, isCv := ref2.(*ssa.Convert); isCv {
+									_ = cv
+								}
+								if in2, isIn := ref2.(ssa.Instruction); isIn && ref2 != ssa.Instruction(bo) {
+									if !guardedBy(in2, bo, bo.Op == token.GEQ) {
+										okNeg = false
+									}
+								}
+							}
+						}
+					}
+				}
+			}
+		}
+		if uses {
+			r.add("EMPTY-SLOT", shortName(fn), "test", "a negative slot value is answered with absent before it is used as an index", P.pos(fn.Pos()), okNeg, "")
+		}
+	}
 	r.assume("hash/maphash and xxhash3 are deterministic for a fixed seed; that the collision scan finds every key (sortedness of items by slot) is a run-time invariant and not decided")
 }
 
